@@ -25,7 +25,7 @@ ExactCases(shape) ==
 
 \* PRelu: slope unidirectionally broadcast over every shape pair; values from the catalogue with determined products
 PReluCases(a, b) ==
-   \A dt \in {"f32", "f64", "i32", "i64", "u32"} :
+   \A dt \in {"f32", "f64", "i32", "i64", "u32", "u64"} :
       LET X == CatT(dt, a, 2)
           S == T(dt, b, [k \in 1..Size(b) |-> IF dt \in FloatTypes THEN (IF k % 2 = 0 THEN Rat(1, 2) ELSE Fin(-1)) ELSE (IF k % 2 = 0 THEN Fin(3) ELSE Fin(-1))])
           ok == \/ ~UCompat(a, b)
